@@ -237,6 +237,58 @@ def rand_signal(run, n=None, dt=None):
     return {"t0": t0, "dt": dt, "vals": [rng.gauss(0, 1) * rng.choice([1, 1, 1e-3]) for _ in range(n)]}
 
 
+def rand_input_desc(run, buffers_ok=True):
+    """a FunctionSignal-type input: analytic pulse, sum of two, shifted, Askaryan pulses; JSON-able"""
+    rng = run.rng
+    kind = rng.choice(["fn", "fn", "fnsum", "fnshift", "zhs", "avz", "arz"] + (["fnwindow"] if buffers_ok else []))
+    d = {"kind": kind, "n": rng.choice([16, 24, 33, 40]), "dt": rng.choice([0.5e-9, 1e-9]), "t0": rng.choice([0.0, -5e-9, 3e-8]),
+         "vt": rng.choice(["field", "voltage"])}
+    d["pulses"] = [{"amp": rng.uniform(0.5, 2), "tc": rng.uniform(0.2, 0.6), "w": rng.uniform(0.04, 0.15),
+                    "f": rng.uniform(1.5e8, 4.5e8), "ph": rng.uniform(0, 6.28)} for _ in range(2)]
+    if kind in ("zhs", "avz", "arz"):
+        d.update(seed=rng.randrange(2 ** 31), energy=10 ** rng.uniform(6, 9), angle=math.radians(rng.uniform(40, 70)),
+                 dist=rng.uniform(50, 500), vt="field", dt=rng.choice([0.5e-9, 0.25e-9]), t0=-5e-9, n=rng.choice([40, 61]))
+    if kind == "fnshift":
+        d["shift"] = rng.uniform(-3, 3) * d["dt"]
+    return d
+
+
+def make_input(d):
+    """a NEW input object for the description (a FunctionSignal or subclass)"""
+    from pyrex.signals import FunctionSignal
+    times = d["t0"] + np.arange(d["n"]) * d["dt"]
+    T = d["n"] * d["dt"]
+
+    def pulse(p):
+        return lambda t: p["amp"] * np.exp(-((t - d["t0"] - p["tc"] * T) / (p["w"] * T)) ** 2) * np.cos(2 * np.pi * p["f"] * t + p["ph"])
+    k = d["kind"]
+    if k in ("zhs", "avz", "arz"):
+        from pyrex.particle import Particle
+        from pyrex.askaryan import ZHSAskaryanSignal, AVZAskaryanSignal, ARZAskaryanSignal
+        np.random.seed(d["seed"])
+        part = Particle(particle_id="nu_e", vertex=[0, 0, -1000], direction=[0, 0, 1], energy=d["energy"],
+                        interaction_type="cc")
+        cls = {"zhs": ZHSAskaryanSignal, "avz": AVZAskaryanSignal, "arz": ARZAskaryanSignal}[k]
+        return cls(times, part, d["angle"], d["dist"])
+    f1 = FunctionSignal(times, pulse(d["pulses"][0]), vtype(d["vt"]))
+    if k == "fnsum":
+        return f1 + FunctionSignal(times, pulse(d["pulses"][1]), vtype(d["vt"]))
+    if k == "fnshift":
+        f1.shift(d["shift"])
+        return f1
+    if k == "fnwindow":      # re-gridded onto a contained window: carries buffers
+        return f1.with_times(times[3:-2])
+    return f1
+
+
+def input_structure(sig):
+    """the internal component lists of a FunctionSignal (what apply_response must leave alone)"""
+    return {"functions": len(sig._functions), "t0s": [float(x) for x in sig._t0s],
+            "buffers": [[float(x) for x in b] for b in sig._buffers], "factors": [float(x) for x in sig._factors],
+            "filters": [len(g) for g in sig._filters], "value_type": str(sig.value_type),
+            "times": [float(x) for x in sig.times]}
+
+
 def perp_pair(rng):
     z = np.array(gvec(rng, rng.choice([1.0, 0.3, 7.0])))
     while True:
@@ -628,6 +680,54 @@ def correspondence(run):
             ("perp", eps), lambda reply, exp=exp: None if (reply == "err") == (exp == "err") and reply != "bad-op"
             else "model=%s impl=%s" % (reply[:40], exp), nontrivial=False)
 
+    # --- FunctionSignal / Askaryan inputs REUSED across calls and antennas, results read lazily in another order
+    for fi_ in range(run.scale(40, 300)):
+        desc = rand_input_desc(run, buffers_ok=False)
+        specs = [rand_spec(run, rng.choice(["dip", "sysdip", "custom", "dip"])) for _ in range(2)]
+        for sp in specs:
+            if sp.get("gains") is not None:
+                sp["fresp"] = rng.uniform(1e8, 8e8)
+        ants = [build(sp) for sp in specs]
+        sig = make_input(desc)
+        twin = make_input(desc)
+        vals0 = [float(x) for x in np.real(twin.values)]
+        struct0 = input_structure(twin)
+        sd = {"t0": desc["t0"], "dt": desc["dt"], "vals": vals0}
+        run.count("reused_input_" + desc["kind"])
+        pending = []
+        for ci in range(rng.choice([2, 3, 4])):
+            ai = rng.randrange(2)
+            use = {"op": rng.choice(["respond", "receive1"]), "signal": sd, "vt": desc["vt"], "direction": gvec(rng),
+                   "polarization": gvec(rng), "force_real": True}
+            outer, inner = ants[ai]
+            d_, p_ = np.array(use["direction"]), np.array(use["polarization"])
+            if use["op"] == "respond":
+                res = outer.apply_response(sig, direction=d_, polarization=p_, force_real=True)
+            else:
+                outer.receive(sig, direction=d_, polarization=p_, force_real=True)
+                res = inner.signals[-1]
+            if input_structure(sig) != struct0:
+                run.note_broken("correspondence: %s of a reused %s input changed the input's component lists: %s -> %s"
+                                % (use["op"], desc["kind"], struct0["filters"], input_structure(sig)["filters"]))
+            pending.append((ai, use, res))
+        rng.shuffle(pending)
+        for ai, use, res in pending:
+            got = [float(v) for v in np.real(res.values)]
+            fo, fi2 = build(specs[ai])
+            sc = use_scale(specs[ai], use, fi2)
+
+            def fnf(reply, got=got, sc=sc, strip=(use["op"] != "respond")):
+                if reply in ("err", "bad-op"):
+                    return "model=%s impl=%s" % (reply, got[:4])
+                g = fw.unfl(reply.split()[1:] if strip else reply.split())
+                if len(g) != len(got) or not all(abs(a - b) <= 1e-8 * sc for a, b in zip(g, got)):
+                    return "model=%s impl=%s" % (g[:4], got[:4])
+                return None
+            add(use_request(specs[ai], fi2, use), ("reused-input", fi_, desc["kind"], ai, use["op"], tuple(use["direction"])),
+                fnf, sample={"op": "reused-input", "input": desc["kind"], "antenna": specs[ai]["kind"]} if fi_ < 2 else None)
+        if [float(x) for x in np.real(sig.values)] != vals0:
+            run.note_broken("correspondence: the values of a reused %s input changed after it was handed to antennas" % desc["kind"])
+
     # --- histories on ONE object: after every step the object, a never-used antenna brought to the same
     #     parameters, and the model (constructor + history records) must answer alike
     hkinds = ["custom", "dip", "sysdip", "syscustom", "custom", "dip", "unit"]
@@ -695,6 +795,8 @@ def oracle(kind, inp):
             return oracle_history(inp)
         if kind == "reorient":
             return oracle_reorient(inp)
+        if kind == "reuse":
+            return oracle_reuse(inp)
         return oracle_plain(kind, inp)
     except Exception as e:     # noqa: BLE001
         import traceback
@@ -770,6 +872,68 @@ def oracle_reorient(inp):
             return ([ri, r1 if isinstance(r1, str) else r1[:4]], [ri, r0 if isinstance(r0, str) else r0[:4]],
                     "response changes when the axes (through set_orientation on the same object), the direction and the "
                     "polarisation are rotated together")
+    return None
+
+
+def oracle_reuse(inp):
+    """FunctionSignal / Askaryan inputs reused across several apply_response / receive calls and antennas; results
+    read lazily in another order than created.  After every call the input is unchanged (component lists; values at
+    the end), every result equals the one a never-used antenna gives for a NEW input object, and results read once do
+    not change afterwards."""
+    descs = inp["inputs"]
+    sigs = [make_input(d) for d in descs]
+    ants = [build(sp) for sp in inp["antennas"]]
+    structs = [input_structure(make_input(d)) for d in descs]
+    vals0 = [np.real(np.array(make_input(d).values)) for d in descs]
+    results = []
+    for ci, c in enumerate(inp["calls"]):
+        outer, inner = ants[c["ant"]]
+        d_, p_ = np.array(c["direction"]), np.array(c["polarization"])
+        arg = sigs[c["inputs"][0]] if len(c["inputs"]) == 1 else sigs[c["inputs"][0]] + sigs[c["inputs"][1]]
+        if c["op"] == "respond":
+            res = outer.apply_response(arg, direction=d_, polarization=p_, force_real=c["force_real"])
+        else:
+            before = len(inner.signals)
+            outer.receive(arg, direction=d_, polarization=p_, force_real=c["force_real"])
+            if len(inner.signals) != before + 1:
+                return (len(inner.signals) - before, 1, "receive did not store exactly one signal")
+            res = inner.signals[-1]
+        results.append(res)
+        for k, sg in enumerate(sigs):
+            now = input_structure(sg)
+            if now != structs[k]:
+                diff = [key for key in now if now[key] != structs[k][key]]
+                return ([ci, k, {key: now[key] for key in diff}], [ci, k, {key: structs[k][key] for key in diff}],
+                        "call %d (%s) modified the incoming %s signal object (its %s)" % (ci, c["op"], descs[k]["kind"], diff))
+
+    def reference(c):
+        fo, fi = build(inp["antennas"][c["ant"]])
+        new = [make_input(descs[k]) for k in c["inputs"]]
+        arg = new[0] if len(new) == 1 else new[0] + new[1]
+        return np.real(np.array(fo.apply_response(arg, direction=np.array(c["direction"]),
+                                                  polarization=np.array(c["polarization"]),
+                                                  force_real=c["force_real"]).values))
+    first = {}
+    for ci in inp["order"]:
+        c = inp["calls"][ci]
+        got = np.real(np.array(results[ci].values))
+        ref = reference(c)
+        sc = float(np.max(np.abs(ref))) + 1e-300
+        if len(got) != len(ref) or np.max(np.abs(got - ref)) > 1e-9 * sc:
+            i = int(np.argmax(np.abs(got - ref))) if len(got) == len(ref) else -1
+            return ([ci, i, float(got[i])], [ci, i, float(ref[i])],
+                    "result of call %d (%s of a reused %s input) differs from the response of a never-used antenna to a "
+                    "new input object" % (ci, c["op"], [descs[k]["kind"] for k in c["inputs"]]))
+        first[ci] = got
+    for k, sg in enumerate(sigs):
+        v = np.real(np.array(sg.values))
+        if len(v) != len(vals0[k]) or np.max(np.abs(v - vals0[k])) > 1e-12 * (float(np.max(np.abs(vals0[k]))) + 1e-300):
+            return (v[:4].tolist(), vals0[k][:4].tolist(), "the values of the incoming %s signal changed after it was "
+                    "handed to antennas" % descs[k]["kind"])
+    for ci, got in first.items():
+        again = np.real(np.array(results[ci].copy().values))
+        if np.max(np.abs(again - got)) > 1e-12 * (float(np.max(np.abs(got))) + 1e-300):
+            return (again[:4].tolist(), got[:4].tolist(), "an earlier result (call %d) changed after the fact" % ci)
     return None
 
 
@@ -919,6 +1083,28 @@ def gen_input(run, kind):
                 work["hist"] = work["hist"] + [rec]
             steps.append({"rec": rec, "use": rand_use(run, n_, dt_, keep)})
         return {"spec": spec, "steps": steps}
+    elif kind == "reuse":
+        ants = [rand_spec(run, rng.choice(["dip", "dip", "sysdip", "custom"])) for _ in range(rng.choice([1, 2, 3]))]
+        for sp in ants:
+            if sp.get("gains") is not None:
+                sp["fresp"] = rng.uniform(1e8, 8e8)
+        d0 = rand_input_desc(run)
+        descs = [d0]
+        if d0["kind"] in ("fn", "fnsum") and rng.random() < 0.7:
+            d1 = rand_input_desc(run)
+            d1.update(kind=rng.choice(["fn", "fnsum"]), n=d0["n"], dt=d0["dt"], t0=d0["t0"], vt=d0["vt"])
+            d1.pop("shift", None)
+            descs.append(d1)
+        calls = []
+        for ci in range(rng.choice([2, 3, 4, 5])):
+            ins = [rng.randrange(len(descs))]
+            if len(descs) == 2 and ci >= 1 and rng.random() < 0.35:
+                ins = [0, 1]
+            calls.append({"ant": rng.randrange(len(ants)), "op": rng.choice(["respond", "receive1"]), "inputs": ins,
+                          "direction": gvec(rng), "polarization": gvec(rng), "force_real": rng.random() < 0.8})
+        order = list(range(len(calls)))
+        rng.shuffle(order)
+        return {"antennas": ants, "inputs": descs, "calls": calls, "order": order}
     elif kind == "reorient":
         use = rand_use(run)
         use.update(op=rng.choice(["respond", "receive1"]), vt=rng.choice(["field", "voltage"]),
@@ -928,7 +1114,7 @@ def gen_input(run, kind):
     return inp
 
 
-ORACLES = ["rotate", "linear", "factor", "rejects", "receive", "frame", "history", "history", "reorient"]
+ORACLES = ["rotate", "linear", "factor", "rejects", "receive", "frame", "history", "history", "reorient", "reuse", "reuse"]
 
 
 def search(run, deep):
@@ -937,7 +1123,7 @@ def search(run, deep):
     for i in range(n):
         for kind in ORACLES:
             inp = gen_input(run, kind)
-            run.case(("oracle", kind, i, inp["spec"]["kind"]))
+            run.case(("oracle", kind, i, inp["spec"]["kind"] if "spec" in inp else inp["inputs"][0]["kind"]))
             run.count("oracle_" + kind)
             res = oracle(kind, inp)
             if res is not None:
